@@ -87,6 +87,9 @@ fn cert_desc(rec: &Value, idx: usize, is_leaf: bool) -> Value {
 	);
 	p["aki"] = json!(idx > 0);
 	p["serial"] = json!({"k": "given", "b": [1, idx as u8]});
+	if let Some(k) = rec.get("kid").and_then(|v| v.as_str()) {
+		p["kid"] = if k == "pre" { json!({"k": "pre", "b": [0x70, idx as u8, 3, 4, 5, 6, 7]}) } else { json!({"k": k, "b": []}) };
+	}
 	if !cfg!(feature = "crypto") {
 		p["kid"] = json!({"k": "pre", "b": [9, idx as u8]});
 	}
@@ -124,9 +127,20 @@ pub fn run_cases(cases_path: &str, out_path: &str) {
 				let (ic, iraw, ip) = prev.as_ref().unwrap();
 				let params = to_params(&p).unwrap();
 				let before = params.clone();
-				let args = json!({"grp": "path", "params": p, "self": false, "pubSrc": "keypair", "subjectKey": key_args(&keys[i]), "signerKey": key_args(&keys[i - 1]),
+				let args = json!({"grp": "path", "params": p, "self": false, "pubSrc": if c.get("issue").and_then(|v| v.as_str()) == Some("csr") { "csr-path" } else { "keypair" }, "subjectKey": key_args(&keys[i]), "signerKey": key_args(&keys[i - 1]),
 					"issuer": {"dn": ip["dn"], "kid": ip["kid"], "subjectRaw": iraw}, "signerFails": false});
-				match guarded(|| params.signed_by(&keys[i].kp, ic, &keys[i - 1].kp)) {
+				let via_csr = c.get("issue").and_then(|v| v.as_str()) == Some("csr");
+				match guarded(|| {
+					if via_csr {
+						// the parsed request is what gets signed, with the case's parameters put in place of the parsed ones
+						let csr = CertificateParams::default().serialize_request(&keys[i].kp)?;
+						let mut req = rcgen::CertificateSigningRequestParams::from_der(csr.der())?;
+						req.params = params.clone();
+						req.signed_by(ic, &keys[i - 1].kp)
+					} else {
+						params.signed_by(&keys[i].kp, ic, &keys[i - 1].kp)
+					}
+				}) {
 					Outcome::Ok(cert) => {
 						let obs = cert_obs(&cert, &before, &keys[i - 1]);
 						let raw = sval(&obs, "subjectRaw");
